@@ -233,6 +233,17 @@ PURE_EXTERNAL = {
     "collections.Counter": lambda *a, **k: __import__("collections").Counter(*a, **k),
     "contextlib.suppress": lambda *excs: Obj("suppress", kinds=[getattr(e, "name", str(e)).rsplit(".", 1)[-1] for e in excs]),
 }
+def _accept_pathlike(fn):
+    def wrapped(*a, **k):
+        return fn(*[(str(x) if isinstance(x, _pathlib.PurePath) else x) for x in a], **k)
+    return wrapped
+
+
+for _k in list(PURE_EXTERNAL):
+    if _k.startswith(("os.path.", "os.fspath", "shlex.quote")):
+        PURE_EXTERNAL[_k] = _accept_pathlike(PURE_EXTERNAL[_k])
+
+
 SAFE_METHODS = {
     str: {"format", "join", "strip", "rstrip", "lstrip", "split", "splitlines", "replace", "startswith", "endswith", "lower", "upper", "partition",
           "rpartition", "center", "ljust", "rjust", "encode", "isdigit", "count", "find", "title", "removeprefix", "removesuffix", "rsplit", "zfill", "casefold",
@@ -518,20 +529,28 @@ class PureInterp:
         elif isinstance(st, (ast.With, ast.AsyncWith)):
             # only event-recording hooks may stand for a context manager
             opened = []
-            for item in st.items:
-                v = self.eval(item.context_expr, env, module, depth)
-                opened.append(v)
-                bound = v
-                enter = self._dunder(v, "__enter__")
-                if enter is not None:
-                    bound = self.call(enter, (), {}, self_obj=v, depth=depth + 1)
-                if item.optional_vars is not None:
-                    self.assign(item.optional_vars, bound, env, module, depth)
+
+            def _kind_is(kind, name):
+                import builtins as _b
+                if kind == name or name in ("Exception", "BaseException") and kind not in ("KeyboardInterrupt", "SystemExit", "GeneratorExit", "CancelledError"):
+                    return name != "Exception" or kind != "CancelledError"
+                a_, b_ = getattr(_b, kind, None), getattr(_b, name, None)
+                return isinstance(a_, type) and isinstance(b_, type) and issubclass(a_, b_)
             try:
                 try:
+                    # `with a, b:` enters b inside a: an exception raised while entering (or evaluating) a later item is seen by the earlier ones
+                    for item in st.items:
+                        v = self.eval(item.context_expr, env, module, depth)
+                        opened.append(v)
+                        bound = v
+                        enter = self._dunder(v, "__enter__")
+                        if enter is not None:
+                            bound = self.call(enter, (), {}, self_obj=v, depth=depth + 1)
+                        if item.optional_vars is not None:
+                            self.assign(item.optional_vars, bound, env, module, depth)
                     self.block(st.body, env, module, depth)
                 except Raised as r_:
-                    if not any(isinstance(v, Obj) and v._name == "suppress" and (r_.kind in v.kinds or "Exception" in v.kinds or (r_.kind.endswith("Error") and "OSError" in v.kinds and r_.kind in ("FileNotFoundError", "PermissionError", "OSError"))) for v in opened):
+                    if not any(isinstance(v, Obj) and v._name == "suppress" and any(_kind_is(r_.kind, k_) for k_ in v.kinds) for v in opened):
                         raise
             finally:
                 pending = None
@@ -543,6 +562,16 @@ class PureInterp:
                         pending = exc_
                 if pending is not None:
                     raise pending
+        elif isinstance(st, ast.Match):
+            subject = self.eval(st.subject, env, module, depth)
+            for case in st.cases:
+                binds = {}
+                if self._match(case.pattern, subject, env, module, depth, binds):
+                    env.update(binds)
+                    if case.guard is None or self.truth(self.eval(case.guard, env, module, depth)):
+                        self.block(case.body, env, module, depth)
+                        return
+            return
         elif isinstance(st, ast.Raise):
             if st.exc is None:
                 cur = env.get("__current_exception__")
@@ -837,6 +866,47 @@ class PureInterp:
         except HOST_ERRORS as exc:
             # the interpreted operation fails on these operands: that is what the code would raise
             raise Raised(type(exc).__name__, f"{exc} in `{ast.unparse(n)[:60]}`")
+
+    def _match(self, pat, subject, env, module, depth, binds):
+        """Structural pattern matching for the patterns a dispatch uses: literal / dotted-name values (compared with ==), singletons (is), or-patterns,
+        captures and the wildcard, sequences and mappings of those."""
+        if isinstance(pat, ast.MatchValue):
+            v = self.eval(pat.value, env, module, depth)
+            return self._eq(subject, v)
+        if isinstance(pat, ast.MatchSingleton):
+            return subject is pat.value
+        if isinstance(pat, ast.MatchOr):
+            return any(self._match(p_, subject, env, module, depth, binds) for p_ in pat.patterns)
+        if isinstance(pat, ast.MatchAs):
+            if pat.pattern is not None and not self._match(pat.pattern, subject, env, module, depth, binds):
+                return False
+            if pat.name is not None:
+                binds[pat.name] = subject
+            return True
+        if isinstance(pat, ast.MatchSequence):
+            if not isinstance(subject, (list, tuple)) or any(isinstance(p_, ast.MatchStar) for p_ in pat.patterns) or len(subject) != len(pat.patterns):
+                if any(isinstance(p_, ast.MatchStar) for p_ in pat.patterns):
+                    raise Unsupported("star pattern")
+                return False
+            return all(self._match(p_, s_, env, module, depth, binds) for p_, s_ in zip(pat.patterns, subject))
+        if isinstance(pat, ast.MatchMapping):
+            if not isinstance(subject, dict) or pat.rest is not None:
+                if pat.rest is not None:
+                    raise Unsupported("mapping rest pattern")
+                return False
+            for k_, p_ in zip(pat.keys, pat.patterns):
+                kv = self.eval(k_, env, module, depth)
+                if kv not in subject or not self._match(p_, subject[kv], env, module, depth, binds):
+                    return False
+            return True
+        raise Unsupported(f"pattern {type(pat).__name__}")
+
+    @staticmethod
+    def _eq(a, b):
+        try:
+            return bool(a == b)
+        except Exception:
+            return a is b
 
     def e_Constant(self, n, env, module, depth):
         return n.value
